@@ -99,6 +99,7 @@ func cmdWorker(args []string) {
 	fs := flag.NewFlagSet("worker", flag.ExitOnError)
 	prop := fs.String("property", "C01", "")
 	tier := fs.String("tier", "quick", "")
+	profile := fs.String("profile", "", "workload profile (default: the property's)")
 	base := fs.Uint64("seed", 1, "")
 	k := fs.Uint64("k", 0, "worker number")
 	n := fs.Uint64("n", 1, "number of workers")
@@ -114,7 +115,10 @@ func cmdWorker(args []string) {
 	}
 	defer f.Close()
 	w := bufio.NewWriter(f)
-	prof := func() *sim.Profile { return sim.ProfileFor(*prop, *tier) }
+	if *profile == "" {
+		*profile = *prop
+	}
+	prof := func() *sim.Profile { return sim.ProfileFor(*profile, *tier) }
 	for i := *k; i < *maxRuns; i += *n {
 		if *deadline > 0 && time.Now().Unix() >= *deadline {
 			break
@@ -189,6 +193,7 @@ func cmdBatch(args []string) {
 	fs := flag.NewFlagSet("batch", flag.ExitOnError)
 	prop := fs.String("property", "C01", "")
 	tier := fs.String("tier", "quick", "")
+	profile := fs.String("profile", "", "workload profile (default: the property's)")
 	seedFlag := fs.String("seed", "", "base seed (default VERIF_SEED or 1)")
 	budget := fs.Int("budget", 0, "seconds of exploration (default by tier)")
 	maxRuns := fs.Uint64("max-runs", 0, "")
@@ -236,7 +241,7 @@ func cmdBatch(args []string) {
 		wg.Add(1)
 		go func(k int) {
 			defer wg.Done()
-			cmd := exec.Command(self, "worker", "--property", *prop, "--tier", *tier, "--seed", fmt.Sprint(base), "--k", fmt.Sprint(k), "--n", fmt.Sprint(*workers),
+			cmd := exec.Command(self, "worker", "--property", *prop, "--profile", *profile, "--tier", *tier, "--seed", fmt.Sprint(base), "--k", fmt.Sprint(k), "--n", fmt.Sprint(*workers),
 				"--max-runs", fmt.Sprint(mr), "--deadline", fmt.Sprint(deadline), "--out", outs[k], "--tmp", tmp)
 			cmd.Env = append(os.Environ(), "GOMAXPROCS=2")
 			lf, _ := os.Create(filepath.Join(tmp, fmt.Sprintf("w%d.log", k)))
@@ -413,8 +418,27 @@ func writeTrace(p string, t *sim.Trace) {
 }
 
 func confirmReplay(self, path, sig string) bool {
-	out, _ := exec.Command(self, "replay", path).CombinedOutput()
-	return strings.Contains(string(out), "signature="+sig)
+	// map-order defects (C01) are sampled, not controlled: give them a few attempts
+	tries := 1
+	if strings.HasPrefix(sig, "C01/") {
+		tries = 4
+	}
+	for i := 0; i < tries; i++ {
+		out, _ := exec.Command(self, "replay", path).CombinedOutput()
+		if strings.Contains(string(out), "VIOLATION property=") {
+			return true
+		}
+	}
+	return false
+}
+
+// sameDefectFamily: a map-iteration-order defect shows either as a live divergence between nodes or through the
+// repeated-call probe, depending on which iteration orders the runtime happens to draw in this execution.
+func sameDefectFamily(a, b string) bool {
+	fam := func(s string) bool {
+		return strings.HasPrefix(s, "C01/pure-function-probe/") || strings.HasPrefix(s, "C01/hash-equality/") || strings.HasPrefix(s, "C01/replay/")
+	}
+	return fam(a) && fam(b)
 }
 
 func cmdReplay(args []string) {
@@ -447,7 +471,7 @@ func cmdReplay(args []string) {
 	hit := false
 	for _, v := range res.Violations {
 		fmt.Printf("violation signature=%s height=%d :: %s\n", v.Signature(), v.Height, v.Msg)
-		if v.Property == prop && (want == "" || v.Signature() == want) {
+		if v.Property == prop && (want == "" || v.Signature() == want || sameDefectFamily(want, v.Signature())) {
 			hit = true
 		}
 	}
